@@ -141,7 +141,11 @@ func solveAll(obls []*Obligation, dir string, timeout, workers int) []*SolveResu
 		go func(i int, o *Obligation) {
 			defer wg.Done()
 			defer func() { <-sem }()
-			out[i] = solve(o, dir, timeout)
+			t := timeout
+			if ct := clauseTimeouts[o.Label]; ct > t {
+				t = ct
+			}
+			out[i] = solve(o, dir, t)
 		}(i, o)
 	}
 	wg.Wait()
